@@ -77,16 +77,14 @@ Theorem C14_dealer_snd0 : forall (fire : N -> N) (i : iface) (hwm pend : nat) (w
 Proof. exact dealer_snd0. Qed.
 Theorem C14_dealer_positive : forall (fire : N -> N) (slack : N), (forall d : N, d <= fire d /\ fire d <= d + slack) -> forall (i : iface) (d : N) (hwm pend : nat) (wakes : list (N * nat)) (w : waitres), 0 < d -> match dealer_send fire (route_full fire i (Some d) w) hwm (Some d) pend wakes with | Hang => False | Ret AOk t f => f = Enqueued /\ w = WRoom t /\ t <= d + slack | Ret AClosed t f => f = Dropped /\ w = WClosed t /\ t <= d + slack | Ret a t f => a = ATimeout /\ f = Dropped /\ d <= t /\ t <= d + slack end.
 Proof. exact dealer_positive. Qed.
-(* DEALER's queue processor (messages accepted into pending_outgoing_queue, handed out later): with a
-   positive SNDTIMEO and the peer's pipe staying full, the popped message is consumed by the timed-out
-   blocking send and an EMPTY batch is pushed back - send() had answered Ok, the message is gone.
-   It is kept whenever route_message answers Ok / hands it back (always with SNDTIMEO = 0) / still waits. *)
-Theorem C14_dealer_processor_loses_refuted : forall (fire : N -> N) (slack : N), (forall d : N, d <= fire d /\ fire d <= d + slack) -> forall (M : Type) (i : iface) (d : N) (m : M) (rest : list (qitem M)), 0 < d -> proc_route (route_full fire i (Some d) WNever) m rest = (QEmpty :: rest, false) /\ ~ proc_keeps (route_full fire i (Some d) WNever) m rest.
-Proof. exact dealer_processor_loses_refuted. Qed.
-Theorem C14_dealer_processor_keeps_outside : forall (M : Type) (route : outcome) (m : M) (rest : list (qitem M)), match route with Ret AOk _ _ | Ret _ _ Returned | Hang => True | _ => False end -> proc_keeps route m rest.
-Proof. exact (@dealer_processor_keeps_outside). Qed.
-Theorem C14_dealer_processor_snd0_keeps : forall (fire : N -> N) (M : Type) (i : iface) (w : waitres) (m : M) (rest : list (qitem M)), proc_keeps (route_full fire i (Some 0) w) m rest.
-Proof. exact dealer_processor_snd0_keeps. Qed.
+(* DEALER's queue processor (messages accepted into pending_outgoing_queue, handed out later): whatever
+   route_message answers, the popped message is handed over, back at the front of the queue or still held by
+   the suspended call; with a positive SNDTIMEO and the peer's pipe staying full it goes back to the front
+   (it used to be replaced by an empty batch: repaired by a fix: commit) *)
+Theorem C14_dealer_processor_keeps : forall (M : Type) (route : outcome) (m : M) (rest : list (qitem M)), proc_keeps route m rest.
+Proof. exact (@dealer_processor_keeps). Qed.
+Theorem C14_dealer_processor_timeout_requeues : forall (fire : N -> N) (slack : N), (forall d : N, d <= fire d /\ fire d <= d + slack) -> forall (M : Type) (i : iface) (d : N) (m : M) (rest : list (qitem M)), 0 < d -> proc_route (route_full fire i (Some d) WNever) m rest = (QMsg m :: rest, false).
+Proof. exact dealer_processor_timeout_requeues. Qed.
 (* DEALER without a peer, pending queue full, positive SNDTIMEO: never early; on time when no futile
    wake-up arrives; a wake-up that finds the queue still full re-arms the whole interval *)
 Theorem C14_dealer_queue_not_early : forall (fire : N -> N) (slack : N), (forall d : N, d <= fire d /\ fire d <= d + slack) -> forall (hwm : nat) (d : N), 0 < d -> forall (wakes : list (N * nat)) (e : N) (pend : nat) (a : answer) (t : N) (f : fate), dealer_queue fire hwm (Some d) e pend wakes = Ret a t f -> a <> AOk -> a = ATimeout /\ e + d <= t /\ f = Dropped.
